@@ -1426,7 +1426,8 @@ def run(ctx):
                 ctx.violation(new[0][0], new[0][1], new[0][2], d)
                 return
 
-    vlib.standard_proof_step(ctx, ["Props/C15.vo"], ["Props/C15.v"], search)
+    vlib.standard_proof_step(ctx, ["Props/C15.vo", "Props/C15_st.vo"],
+                             ["Props/C15.v", "Props/C15_st.v"], search)
 
     # 1. the former counterexamples, as regression cases
     for name, case in WITNESSES.items():
